@@ -44,9 +44,15 @@ def output_edges(ck):
     return found
 
 
+def extras(ck):
+    return output_edges(ck) + engine.fixed_runs(ck, 'C01', engine.KILLED_DEPENDENCY,
+                                                'a dependency whose script dies from SIGKILL / SIGTERM / SIGSEGV, reached directly '
+                                                'and through an aggregate: no dependent may start')
+
+
 def run(ck):
     engine.check_engine(ck, 'C01', actor.proj(keep_out=keep, keys=('starts',)),
-                        'script starts + Ok/Invalidated messages sent', fail_p=0.4, extra=output_edges, n_evflow_quick=24)
+                        'script starts + Ok/Invalidated messages sent', fail_p=0.4, extra=extras, n_evflow_quick=24)
 
 
 def replay(ck, path):
